@@ -107,6 +107,35 @@ theorem keys_assign_subset (key : α → Nat) (val : α → β) (l : List α) :
       · have := ih k hk; simp only [List.map_append, List.mem_append]; exact Or.inl this
       · simp [hk]
 
+/-- every entry of the dict was written for some element: its key and value are that element's -/
+theorem mem_assign (key : α → Nat) (val : α → β) (l : List α) :
+    ∀ e ∈ assign key val l, ∃ x ∈ l, e = (key x, val x) := by
+  induction l using snoc_induction with
+  | nil => simp [assign]
+  | snoc l x ih =>
+    rw [assign_snoc]
+    intro e he
+    have hcases : e = (key x, val x) ∨ e ∈ assign key val l := by
+      generalize assign key val l = d at he ⊢
+      induction d with
+      | nil => simp [setKey] at he; exact Or.inl he
+      | cons y ys ihd =>
+        simp only [setKey] at he
+        split at he
+        · rename_i hk
+          rcases List.mem_cons.mp he with rfl | he
+          · left; rw [hk]
+          · right; simp [he]
+        · rcases List.mem_cons.mp he with rfl | he
+          · right; simp
+          · rcases ihd he with h | h
+            · exact Or.inl h
+            · right; simp [h]
+    rcases hcases with rfl | he
+    · exact ⟨x, by simp, rfl⟩
+    · obtain ⟨y, hy, rfl⟩ := ih e he
+      exact ⟨y, by simp [hy], rfl⟩
+
 /-- if assignments come with non-decreasing keys, the dict's keys are strictly increasing -/
 theorem keys_assign_sorted (key : α → Nat) (val : α → β) (l : List α)
     (h : (l.map key).Pairwise (· ≤ ·)) : ((assign key val l).map (·.1)).Pairwise (· < ·) := by
@@ -130,14 +159,15 @@ theorem keys_assign_sorted (key : α → Nat) (val : α → β) (l : List α)
 
 /-! ### what the collects of a history saw -/
 
-/-- a collect stores something unless the validation of the model reporters fails -/
-def stores (cfg : Cfg) (s : State) : Bool := cfg.mreps.isEmpty || s.validated || validateOk cfg s
+/-- a collect gets past the validation of the model reporters (what it then stores depends on whether
+    a reporter raises, see `HoldsG`) -/
+def stores (cfg : Cfg) (s : State) : Bool := (guardErr cfg s).isNone
 
 def snapOf (cfg : Cfg) (s : State) : Op → List Snap
   | .collect => if stores cfg s then [s.snap] else []
   | _ => []
 
-/-- the snapshots of the model at the `collect` calls of a history that stored something, oldest first -/
+/-- the snapshots of the model at the `collect` calls of a history that got past validation, oldest first -/
 def storedSnaps (cfg : Cfg) : State → List Op → List Snap
   | _, [] => []
   | s, op :: rest => snapOf cfg s op ++ storedSnaps cfg (apply cfg s op).1 rest
@@ -147,7 +177,7 @@ def agentRows (cfg : Cfg) (sn : Snap) : List Row := sn.agents.map (mkRow cfg.are
 
 /-- the agents an agent-type reporter keyed by `T` looks at, as a function of the snapshot alone -/
 def classAgents (cfg : Cfg) (sn : Snap) (T : Nat) : Option (List AgentS) :=
-  if sn.agents.any (fun a => a.ty == T) then some (sn.agents.filter fun a => a.ty == T)
+  if sn.agents.any (fun a => a.ty == T) then some (byCreation (sn.agents.filter fun a => a.ty == T))
   else if cfg.isAgentClass T then some (sn.agents.filter fun a => cfg.isSub a.ty T)
   else none
 
@@ -157,7 +187,10 @@ def typeLoopS (cfg : Cfg) (sn : Snap) :
   | (T, reps) :: rest, acc =>
     match classAgents cfg sn T with
     | none => (acc, some .value)
-    | some ags => typeLoopS cfg sn rest (setKey T (ags.map (mkRow reps sn)) acc)
+    | some ags =>
+      match rowsExc reps sn ags with
+      | some e => (acc, some e)
+      | none => typeLoopS cfg sn rest (setKey T (ags.map (mkRow reps sn)) acc)
 
 /-- `_agenttype_records[steps]` as written by one collect -/
 def typeDict (cfg : Cfg) (sn : Snap) : List (Nat × List Row) := (typeLoopS cfg sn cfg.treps []).1
@@ -187,24 +220,75 @@ theorem typeLoop_eq {cfg : Cfg} {s : State} (h : TypesInv s) (l : List (Nat × L
     rw [typeLoop, typeLoopS, typeAgents_eq h]
     cases classAgents cfg s.snap T with
     | none => rfl
-    | some ags => exact ih _
+    | some ags =>
+      simp only []
+      cases rowsExc reps s.snap ags with
+      | some e => rfl
+      | none => exact ih _
 
-/-- what the DataCollector holds is a function of the stored snapshots -/
-structure Holds (cfg : Cfg) (snaps : List Snap) (s : State) : Prop where
+/-! #### reporters that raise: how far a collect gets is a function of the snapshot -/
+
+/-- the reporter returns (does not raise) on this snapshot -/
+def MRep.passes (r : MRep) (sn : Snap) : Bool := (r.exc sn).isNone
+
+/-- the exception that ends the loop over the model reporters, if any -/
+def firstExc (l : List MRep) (sn : Snap) : Option Err := l.findSome? fun r => r.exc sn
+
+/-- every model reporter returns: the model phase of the collect completes -/
+def mOk (cfg : Cfg) (sn : Snap) : Bool := (firstExc cfg.mreps sn).isNone
+
+/-- every agent reporter returns on every registered agent -/
+def aOk (cfg : Cfg) (sn : Snap) : Bool := (rowsExc cfg.areps sn sn.agents).isNone
+
+/-- the collect gets as far as writing the agent records (and starting the agent-type dict) -/
+def complete (cfg : Cfg) (sn : Snap) : Bool := mOk cfg sn && aOk cfg sn
+
+/-- `model_vars` as a function of the snapshots: the column of a reporter holds its value at exactly those
+    collects at which it and every reporter before it returned -/
+def colsOf : List MRep → List Snap → List (List Val)
+  | [], _ => []
+  | r :: rs, snaps => (snaps.filter r.passes).map r.eval :: colsOf rs (snaps.filter r.passes)
+
+theorem firstExc_cons (r : MRep) (rs : List MRep) (sn : Snap) :
+    firstExc (r :: rs) sn = match r.exc sn with
+      | some e => some e
+      | none => firstExc rs sn := by
+  simp only [firstExc, List.findSome?_cons]
+  cases r.exc sn <;> rfl
+
+theorem mLoop_colsOf (sn : Snap) (l : List MRep) (snaps : List Snap) :
+    mLoop sn l (colsOf l snaps) = (colsOf l (snaps ++ [sn]), firstExc l sn) := by
+  induction l generalizing snaps with
+  | nil => rfl
+  | cons r rs ih =>
+    rw [firstExc_cons]
+    simp only [colsOf, mLoop, List.filter_append]
+    cases hr : r.run sn with
+    | error e =>
+      have hp : r.passes sn = false := by simp [MRep.passes, MRep.exc, hr, excOf]
+      have he : r.exc sn = some e := by simp [MRep.exc, hr, excOf]
+      simp [hp, he]
+    | ok v =>
+      have hp : r.passes sn = true := by simp [MRep.passes, MRep.exc, hr, excOf]
+      have he : r.exc sn = none := by simp [MRep.exc, hr, excOf]
+      have hv : r.eval sn = v := by simp [MRep.eval, hr, valOf]
+      simp [hp, he, hv, ih]
+
+theorem colsOf_length (l : List MRep) (snaps : List Snap) : (colsOf l snaps).length = l.length := by
+  induction l generalizing snaps with
+  | nil => rfl
+  | cons r rs ih => simp [colsOf, ih]
+
+/-- what the DataCollector holds is a function of the snapshots at its collects — for reporters that may raise -/
+structure HoldsG (cfg : Cfg) (snaps : List Snap) (s : State) : Prop where
   types : TypesInv s
-  modelVars : s.modelVars = cfg.mreps.map fun r => snaps.map r.eval
-  collSteps : s.collSteps = snaps.map (·.steps)
-  records : s.records = if cfg.areps.isEmpty then [] else assign (·.steps) (agentRows cfg) snaps
-  typeRecords : s.typeRecords = if cfg.treps.isEmpty then [] else assign (·.steps) (typeDict cfg) snaps
+  modelVars : s.modelVars = colsOf cfg.mreps snaps
+  collSteps : s.collSteps = (snaps.filter (mOk cfg)).map (·.steps)
+  records : s.records = if cfg.areps.isEmpty then [] else assign (·.steps) (agentRows cfg) (snaps.filter (complete cfg))
+  typeRecords : s.typeRecords =
+    if cfg.treps.isEmpty then [] else assign (·.steps) (typeDict cfg) (snaps.filter (complete cfg))
   stepsLe : ∀ sn ∈ snaps, sn.steps ≤ s.steps
   sorted : (snaps.map (·.steps)).Pairwise (· ≤ ·)
-
-theorem zipWith_append_eval (l : List MRep) (pre : List Snap) (sn : Snap) :
-    List.zipWith (fun col r => col ++ [r.eval sn]) (l.map fun r => pre.map r.eval) l =
-      l.map fun r => (pre ++ [sn]).map r.eval := by
-  induction l with
-  | nil => rfl
-  | cons r rs ih => simp [ih]
 
 theorem apply_frame (cfg : Cfg) (s : State) (op : Op) (h : op ≠ .collect) :
     (apply cfg s op).1.modelVars = s.modelVars ∧ (apply cfg s op).1.collSteps = s.collSteps ∧
@@ -218,18 +302,105 @@ theorem apply_frame (cfg : Cfg) (s : State) (op : Op) (h : op ≠ .collect) :
     · simp
     · split <;> simp
 
+/-- `collect` touches only what the DataCollector holds -/
+theorem collect_frame (cfg : Cfg) (s : State) :
+    (collect cfg s).1.agents = s.agents ∧ (collect cfg s).1.types = s.types ∧ (collect cfg s).1.steps = s.steps ∧
+    (collect cfg s).1.attrs = s.attrs ∧ (collect cfg s).1.tables = s.tables ∧
+    (collect cfg s).1.running = s.running ∧ (collect cfg s).1.nextId = s.nextId := by
+  unfold collect
+  split
+  · simp
+  · simp only []
+    split
+    · simp
+    · split
+      · simp
+      · split <;> split <;> simp
+
+theorem collect_agents (cfg : Cfg) (s : State) :
+    (collect cfg s).1.agents = s.agents ∧ (collect cfg s).1.types = s.types ∧ (collect cfg s).1.steps = s.steps :=
+  ⟨(collect_frame cfg s).1, (collect_frame cfg s).2.1, (collect_frame cfg s).2.2.1⟩
+
 theorem apply_steps_le (cfg : Cfg) (s : State) (op : Op) : s.steps ≤ (apply cfg s op).1.steps := by
   cases op <;> simp only [apply] <;> try simp
   · split <;> simp
   · split <;> simp
-  · unfold collect; split
-    · simp
-    · simp only []
-      split <;> split <;> split <;> simp
+  · rw [(collect_frame cfg s).2.2.1]; exact Nat.le_refl _
   · unfold addTableRow; split
     · simp
     · split <;> simp
 
+theorem insertBy_perm (le : α → α → Bool) (x : α) (l : List α) : (insertBy le x l).Perm (x :: l) := by
+  induction l with
+  | nil => exact List.Perm.refl _
+  | cons y ys ih =>
+    simp only [insertBy]
+    split
+    · exact List.Perm.refl _
+    · exact (List.Perm.cons y ih).trans (List.Perm.swap x y ys)
+
+theorem sortStable_perm (le : α → α → Bool) (l : List α) : (sortStable le l).Perm l := by
+  induction l with
+  | nil => exact List.Perm.refl _
+  | cons x xs ih => exact (insertBy_perm le x _).trans (List.Perm.cons x ih)
+
+theorem insertBy_pairwise {le : α → α → Bool} (htr : ∀ a b c, le a b = true → le b c = true → le a c = true)
+    (htot : ∀ a b, le a b = true ∨ le b a = true) (x : α) {l : List α} (h : l.Pairwise fun a b => le a b = true) :
+    (insertBy le x l).Pairwise fun a b => le a b = true := by
+  induction l with
+  | nil => simp [insertBy]
+  | cons y ys ih =>
+    simp only [insertBy]
+    have hy := List.pairwise_cons.mp h
+    split
+    · rename_i hxy
+      refine List.pairwise_cons.mpr ⟨?_, h⟩
+      intro b hb
+      rcases List.mem_cons.mp hb with rfl | hb
+      · exact hxy
+      · exact htr _ _ _ hxy (hy.1 b hb)
+    · rename_i hxy
+      refine List.pairwise_cons.mpr ⟨?_, ih hy.2⟩
+      intro b hb
+      rcases List.mem_cons.mp ((insertBy_perm le x ys).mem_iff.mp hb) with rfl | hb
+      · rcases htot b y with h1 | h1
+        · exact absurd h1 hxy
+        · exact h1
+      · exact hy.1 b hb
+
+theorem sortStable_pairwise {le : α → α → Bool} (htr : ∀ a b c, le a b = true → le b c = true → le a c = true)
+    (htot : ∀ a b, le a b = true ∨ le b a = true) (l : List α) :
+    (sortStable le l).Pairwise fun a b => le a b = true := by
+  induction l with
+  | nil => simp [sortStable]
+  | cons x xs ih => exact insertBy_pairwise htr htot x ih
+
+/-- a list that is already in order is left as it is (in particular equal keys keep their order) -/
+theorem sortStable_of_pairwise {le : α → α → Bool} {l : List α} (h : l.Pairwise fun a b => le a b = true) :
+    sortStable le l = l := by
+  induction l with
+  | nil => rfl
+  | cons x xs ih =>
+    have hx := List.pairwise_cons.mp h
+    simp only [sortStable, ih hx.2]
+    cases xs with
+    | nil => rfl
+    | cons y ys => simp [insertBy, hx.1 y (by simp)]
+
+theorem sortBy_perm (key : AgentS → Int) (asc : Bool) (l : List AgentS) : (sortBy key asc l).Perm l := by
+  unfold sortBy; split <;> exact sortStable_perm _ _
+
+/-- an in-place reordering rearranges `model.agents` and does nothing else to it -/
+theorem reorderList_perm (k : ReKind) (l : List AgentS) : (reorderList k l).Perm l := by
+  cases k with
+  | rev => exact List.reverse_perm l
+  | rot =>
+    simp only [reorderList]
+    exact List.perm_append_comm.trans (List.Perm.of_eq (List.take_append_drop 1 l))
+  | byId asc => exact sortBy_perm _ _ _
+  | byAttr a asc => exact sortBy_perm _ _ _
+
+theorem byCreation_perm (l : List AgentS) : (byCreation l).Perm l := sortStable_perm _ _
 
 theorem apply_agents_types (cfg : Cfg) (s : State) (op : Op) (h : TypesInv s) : TypesInv (apply cfg s op).1 := by
   unfold TypesInv at *
@@ -265,87 +436,91 @@ theorem apply_agents_types (cfg : Cfg) (s : State) (op : Op) (h : TypesInv s) : 
     have := h y hy
     split <;> simpa using this
   case collect =>
-    unfold collect
-    split
-    · exact h
-    · simp only []
-      split <;> split <;> split <;> exact h
+    rw [(collect_frame cfg s).1, (collect_frame cfg s).2.1]; exact h
   case row =>
     unfold addTableRow
     split
     · exact h
     · split <;> exact h
   case stopAt => exact h
-
-/-- the validation guard of `collect` -/
-theorem collect_guard_false {cfg : Cfg} {s : State} (hs : stores cfg s = true) :
-    (!cfg.mreps.isEmpty && !s.validated && !validateOk cfg s) = false := by
-  simp only [stores, Bool.or_eq_true] at hs
-  rcases hs with (hs | hs) | hs <;> simp [hs]
-
-theorem collect_guard_true {cfg : Cfg} {s : State} (hs : stores cfg s = false) :
-    (!cfg.mreps.isEmpty && !s.validated && !validateOk cfg s) = true := by
-  simp only [stores, Bool.or_eq_false_iff] at hs
-  simp [hs.1.1, hs.1.2, hs.2]
-
-/-- what a collect that gets past validation writes -/
-theorem collect_fields {cfg : Cfg} {s : State} (hs : stores cfg s = true) :
-    (collect cfg s).1.modelVars =
-      (if cfg.mreps.isEmpty then s.modelVars
-       else List.zipWith (fun col r => col ++ [r.eval s.snap]) s.modelVars cfg.mreps) ∧
-    (collect cfg s).1.collSteps = s.collSteps ++ [s.steps] ∧
-    (collect cfg s).1.records =
-      (if cfg.areps.isEmpty then s.records else setKey s.steps (s.agents.map (mkRow cfg.areps s.snap)) s.records) ∧
-    (collect cfg s).1.typeRecords =
-      (if cfg.treps.isEmpty then s.typeRecords
-       else setKey s.steps (typeLoop cfg s cfg.treps []).1 s.typeRecords) ∧
-    (collect cfg s).1.tables = s.tables ∧ (collect cfg s).1.attrs = s.attrs ∧
-    (collect cfg s).1.running = s.running ∧ (collect cfg s).1.nextId = s.nextId := by
-  unfold collect
-  simp only [collect_guard_false hs, Bool.false_eq_true, if_false]
-  split <;> split <;> split <;> simp [*]
+  case reorder k =>
+    intro a ha
+    exact h a ((reorderList_perm k s.agents).mem_iff.mp ha)
 
 theorem collect_fails {cfg : Cfg} {s : State} (hs : stores cfg s = false) :
-    collect cfg s = ({ s with validated := true }, some .attr) := by
-  unfold collect; simp only [collect_guard_true hs, if_true]
-
-theorem collect_agents (cfg : Cfg) (s : State) :
-    (collect cfg s).1.agents = s.agents ∧ (collect cfg s).1.types = s.types ∧ (collect cfg s).1.steps = s.steps := by
+    ∃ e, collect cfg s = ({ s with validated := true }, some e) := by
+  unfold stores at hs
   unfold collect
-  split
-  · simp
-  · simp only []
-    split <;> split <;> split <;> simp
+  cases hg : guardErr cfg s with
+  | none => simp [hg] at hs
+  | some e => exact ⟨e, rfl⟩
 
-theorem holds_collect {cfg : Cfg} {snaps : List Snap} {s : State} (h : Holds cfg snaps s) :
-    Holds cfg (snaps ++ snapOf cfg s .collect) (collect cfg s).1 := by
+@[simp] theorem snap_agents (s : State) : s.snap.agents = s.agents := rfl
+@[simp] theorem snap_steps (s : State) : s.snap.steps = s.steps := rfl
+@[simp] theorem snap_attrs (s : State) : s.snap.attrs = s.attrs := rfl
+
+/-- what a collect that gets past validation does, on a state whose `model_vars` are as `HoldsG` says -/
+theorem collect_stores {cfg : Cfg} {s : State} {snaps : List Snap} (hs : stores cfg s = true)
+    (hm : s.modelVars = colsOf cfg.mreps snaps) :
+    (collect cfg s).1.modelVars = colsOf cfg.mreps (snaps ++ [s.snap]) ∧
+    (collect cfg s).1.collSteps = (if mOk cfg s.snap then s.collSteps ++ [s.steps] else s.collSteps) ∧
+    (collect cfg s).1.records =
+      (if complete cfg s.snap && !cfg.areps.isEmpty then setKey s.steps (agentRows cfg s.snap) s.records
+       else s.records) ∧
+    (collect cfg s).1.typeRecords =
+      (if complete cfg s.snap && !cfg.treps.isEmpty then setKey s.steps (typeLoop cfg s cfg.treps []).1 s.typeRecords
+       else s.typeRecords) := by
+  unfold stores at hs
+  unfold collect
+  cases hg : guardErr cfg s with
+  | some e => simp [hg] at hs
+  | none =>
+    simp only [hm, mLoop_colsOf]
+    cases hf : firstExc cfg.mreps s.snap with
+    | some e => simp [mOk, complete, hf]
+    | none =>
+      simp only []
+      have hmo : mOk cfg s.snap = true := by simp [mOk, hf]
+      cases ha : rowsExc cfg.areps s.snap s.agents with
+      | some e =>
+        have hao : aOk cfg s.snap = false := by simp [aOk, ha]
+        simp [hmo, complete, hao]
+      | none =>
+        have hao : aOk cfg s.snap = true := by simp [aOk, ha]
+        simp only []
+        by_cases hae : cfg.areps.isEmpty = true <;> by_cases hte : cfg.treps.isEmpty = true <;>
+          simp [hmo, hao, complete, hae, hte, agentRows]
+
+theorem holdsG_collect {cfg : Cfg} {snaps : List Snap} {s : State} (h : HoldsG cfg snaps s) :
+    HoldsG cfg (snaps ++ snapOf cfg s .collect) (collect cfg s).1 := by
   have hty : TypesInv (collect cfg s).1 := apply_agents_types cfg s .collect h.types
   have hst := (collect_agents cfg s).2.2
   by_cases hs : stores cfg s = true
-  · obtain ⟨f1, f2, f3, f4, _⟩ := collect_fields hs
+  · obtain ⟨f1, f2, f3, f4⟩ := collect_stores hs h.modelVars
     simp only [snapOf, hs, if_true]
-    refine ⟨hty, ?_, ?_, ?_, ?_, ?_, ?_⟩
-    · rw [f1, h.modelVars]
-      by_cases hm : cfg.mreps.isEmpty = true
-      · have : cfg.mreps = [] := by simpa using hm
-        simp [this]
-      · simp only [hm, Bool.false_eq_true, if_false]
-        exact zipWith_append_eval _ _ _
-    · rw [f2, h.collSteps]; simp [State.snap]
-    · rw [f3, h.records]
+    refine ⟨hty, f1, ?_, ?_, ?_, ?_, ?_⟩
+    · rw [f2, h.collSteps, List.filter_append]
+      by_cases hm : mOk cfg s.snap = true <;> simp [hm]
+    · rw [f3, h.records, List.filter_append]
       by_cases ha : cfg.areps.isEmpty = true
       · simp [ha]
-      · simp only [ha, Bool.false_eq_true, if_false, assign_snoc]; rfl
-    · rw [f4, h.typeRecords]
+      · by_cases hc : complete cfg s.snap = true
+        · simp only [ha, hc, Bool.false_eq_true, if_false, Bool.not_false, Bool.and_self, if_true,
+            List.filter_cons, List.filter_nil, assign_snoc]; rfl
+        · simp [ha, hc]
+    · rw [f4, h.typeRecords, List.filter_append]
       by_cases ht : cfg.treps.isEmpty = true
       · simp [ht]
-      · simp only [ht, Bool.false_eq_true, if_false, assign_snoc, typeLoop_eq h.types]; rfl
+      · by_cases hc : complete cfg s.snap = true
+        · simp only [ht, hc, Bool.false_eq_true, if_false, Bool.not_false, Bool.and_self, if_true,
+            List.filter_cons, List.filter_nil, assign_snoc, typeLoop_eq h.types]; rfl
+        · simp [ht, hc]
     · intro sn hsn
       simp only [List.mem_append, List.mem_singleton] at hsn
       rw [hst]
       rcases hsn with hsn | hsn
       · exact h.stepsLe sn hsn
-      · subst hsn; simp [State.snap]
+      · subst hsn; simp
     · rw [List.map_append, List.pairwise_append]
       refine ⟨h.sorted, by simp, ?_⟩
       intro a ha b hb
@@ -355,29 +530,105 @@ theorem holds_collect {cfg : Cfg} {snaps : List Snap} {s : State} (h : Holds cfg
       exact h.stepsLe sn hsn
   · have hs' : stores cfg s = false := by simpa using hs
     simp only [snapOf, hs', Bool.false_eq_true, if_false, List.append_nil]
-    rw [collect_fails hs']
+    obtain ⟨e, he⟩ := collect_fails hs'
+    rw [he]
     exact ⟨h.types, h.modelVars, h.collSteps, h.records, h.typeRecords, h.stepsLe, h.sorted⟩
 
-theorem holds_apply {cfg : Cfg} {snaps : List Snap} {s : State} (h : Holds cfg snaps s) (op : Op) :
-    Holds cfg (snaps ++ snapOf cfg s op) (apply cfg s op).1 := by
+theorem holdsG_apply {cfg : Cfg} {snaps : List Snap} {s : State} (h : HoldsG cfg snaps s) (op : Op) :
+    HoldsG cfg (snaps ++ snapOf cfg s op) (apply cfg s op).1 := by
   by_cases hc : op = .collect
-  · subst hc; exact holds_collect h
+  · subst hc; exact holdsG_collect h
   · have hsn : snapOf cfg s op = [] := by cases op <;> simp_all [snapOf]
     obtain ⟨h1, h2, h3, h4, _⟩ := apply_frame cfg s op hc
     rw [hsn, List.append_nil]
     exact ⟨apply_agents_types cfg s op h.types, h1 ▸ h.modelVars, h2 ▸ h.collSteps, h3 ▸ h.records,
       h4 ▸ h.typeRecords, fun sn hsn => Nat.le_trans (h.stepsLe sn hsn) (apply_steps_le cfg s op), h.sorted⟩
 
-theorem holds_run {cfg : Cfg} {snaps : List Snap} {s : State} (h : Holds cfg snaps s) (ops : List Op) :
-    Holds cfg (snaps ++ storedSnaps cfg s ops) (run cfg s ops) := by
+theorem holdsG_run {cfg : Cfg} {snaps : List Snap} {s : State} (h : HoldsG cfg snaps s) (ops : List Op) :
+    HoldsG cfg (snaps ++ storedSnaps cfg s ops) (run cfg s ops) := by
   induction ops generalizing snaps s with
   | nil => simpa [storedSnaps, run] using h
   | cons op rest ih =>
-    have := ih (holds_apply h op)
+    have := ih (holdsG_apply h op)
     simpa [storedSnaps, run, List.append_assoc] using this
 
-theorem holds_init (cfg : Cfg) (tables : List (Nat × List Nat)) : Holds cfg [] (init cfg tables) := by
-  refine ⟨?_, ?_, ?_, ?_, ?_, ?_, ?_⟩ <;> simp [init, TypesInv, assign]
+theorem colsOf_nil (l : List MRep) : colsOf l [] = l.map fun _ => [] := by
+  induction l with
+  | nil => rfl
+  | cons r rs ih => simp [colsOf, ih]
+
+theorem holdsG_init (cfg : Cfg) (tables : List (Nat × List Nat)) : HoldsG cfg [] (init cfg tables) := by
+  refine ⟨?_, ?_, ?_, ?_, ?_, ?_, ?_⟩ <;> simp [init, TypesInv, assign, colsOf_nil]
+
+/-- the whole history from a fresh DataCollector -/
+theorem holdsG_history (cfg : Cfg) (tables : List (Nat × List Nat)) (ops : List Op) :
+    HoldsG cfg (storedSnaps cfg (init cfg tables) ops) (run cfg (init cfg tables) ops) := by
+  have h := holdsG_run (holdsG_init cfg tables) ops
+  simpa using h
+
+/-! #### reporters that never raise -/
+
+/-- no reporter of the dictionaries ever raises (the domain of C12's quantifier) -/
+structure Total (cfg : Cfg) : Prop where
+  m : ∀ r ∈ cfg.mreps, ∀ sn, r.exc sn = none
+  a : ∀ r ∈ cfg.areps, ∀ sn ag, r.exc sn ag = none
+  t : ∀ x ∈ cfg.treps, ∀ r ∈ x.2, ∀ sn ag, r.exc sn ag = none
+
+theorem rowsExc_none_of_total (reps : List ARep) (h : ∀ r ∈ reps, ∀ sn ag, r.exc sn ag = none) (sn : Snap)
+    (ags : List AgentS) : rowsExc reps sn ags = none := by
+  simp only [rowsExc, rowExc, List.findSome?_eq_none_iff]
+  intro ag _ r hr
+  exact h r hr sn ag
+
+theorem firstExc_none_of_total (l : List MRep) (h : ∀ r ∈ l, ∀ sn, r.exc sn = none) (sn : Snap) :
+    firstExc l sn = none := by
+  simp only [firstExc, List.findSome?_eq_none_iff]
+  intro r hr
+  exact h r hr sn
+
+theorem complete_of_total {cfg : Cfg} (hT : Total cfg) (sn : Snap) : mOk cfg sn = true ∧ complete cfg sn = true := by
+  have h1 : mOk cfg sn = true := by simp [mOk, firstExc_none_of_total _ hT.m]
+  have h2 : aOk cfg sn = true := by simp [aOk, rowsExc_none_of_total _ hT.a]
+  exact ⟨h1, by simp [complete, h1, h2]⟩
+
+theorem colsOf_total (l : List MRep) (h : ∀ r ∈ l, ∀ sn, r.exc sn = none) (snaps : List Snap) :
+    colsOf l snaps = l.map fun r => snaps.map r.eval := by
+  induction l generalizing snaps with
+  | nil => rfl
+  | cons r rs ih =>
+    have hp : snaps.filter r.passes = snaps := by
+      rw [List.filter_eq_self]
+      intro sn _
+      simp [MRep.passes, h r (by simp) sn]
+    simp only [colsOf, hp, List.map_cons]
+    rw [ih (fun r' hr' => h r' (by simp [hr']))]
+
+/-- what the DataCollector holds is a function of the stored snapshots (reporters that never raise) -/
+structure Holds (cfg : Cfg) (snaps : List Snap) (s : State) : Prop where
+  types : TypesInv s
+  modelVars : s.modelVars = cfg.mreps.map fun r => snaps.map r.eval
+  collSteps : s.collSteps = snaps.map (·.steps)
+  records : s.records = if cfg.areps.isEmpty then [] else assign (·.steps) (agentRows cfg) snaps
+  typeRecords : s.typeRecords = if cfg.treps.isEmpty then [] else assign (·.steps) (typeDict cfg) snaps
+  stepsLe : ∀ sn ∈ snaps, sn.steps ≤ s.steps
+  sorted : (snaps.map (·.steps)).Pairwise (· ≤ ·)
+
+theorem holds_of_holdsG {cfg : Cfg} (hT : Total cfg) {snaps : List Snap} {s : State} (h : HoldsG cfg snaps s) :
+    Holds cfg snaps s := by
+  have hf1 : snaps.filter (mOk cfg) = snaps := by
+    rw [List.filter_eq_self]; intro sn _; exact (complete_of_total hT sn).1
+  have hf2 : snaps.filter (complete cfg) = snaps := by
+    rw [List.filter_eq_self]; intro sn _; exact (complete_of_total hT sn).2
+  refine ⟨h.types, ?_, ?_, ?_, ?_, h.stepsLe, h.sorted⟩
+  · rw [h.modelVars, colsOf_total _ hT.m]
+  · rw [h.collSteps, hf1]
+  · rw [h.records, hf2]
+  · rw [h.typeRecords, hf2]
+
+/-- the whole history from a fresh DataCollector, reporters that never raise -/
+theorem holds_history {cfg : Cfg} (hT : Total cfg) (tables : List (Nat × List Nat)) (ops : List Op) :
+    Holds cfg (storedSnaps cfg (init cfg tables) ops) (run cfg (init cfg tables) ops) :=
+  holds_of_holdsG hT (holdsG_history cfg tables ops)
 
 
 /-! ### frames -/
@@ -459,10 +710,7 @@ theorem apply_tables_frame (cfg : Cfg) (s : State) (op : Op) (h : ∀ t r ign, o
   cases op <;> simp only [apply] <;> try simp
   · split <;> simp
   · split <;> simp
-  · by_cases hs : stores cfg s = true
-    · exact (collect_fields hs).2.2.2.2.1
-    · have hs' : stores cfg s = false := by simpa using hs
-      rw [collect_fails hs']
+  · exact (collect_frame cfg s).2.2.2.2.1
   · exact absurd rfl (h _ _ _)
 
 theorem tabHolds_apply {cfg : Cfg} {rows : Nat → List (List (Nat × Val))} {s : State} (h : TabHolds rows s) (op : Op) :
@@ -566,6 +814,56 @@ theorem tableFrame_of_tabHolds {rows : Nat → List (List (Nat × Val))} {s : St
         rw [h t tab hl cv hm]; simp
       · simpa using he
 
+/-! ### the declared tables are the known tables, for ever -/
+
+theorem initTables_lookup (tables : List (Nat × List Nat)) (acc : List (Nat × Table)) (t : Nat) :
+    ((tables.foldl (fun acc (x : Nat × List Nat) => setKey x.1 (x.2.foldl (fun c k => setKey k [] c) []) acc) acc).lookup t).isSome =
+      ((acc.lookup t).isSome || tables.any (·.1 == t)) := by
+  induction tables generalizing acc with
+  | nil => simp
+  | cons x xs ih =>
+    simp only [List.foldl_cons, ih, lookup_setKey, List.any_cons]
+    by_cases h : t = x.1
+    · subst h; simp
+    · have : (x.1 == t) = false := by simp; exact fun e => h e.symm
+      simp [h, this]
+
+theorem apply_tables_known (cfg : Cfg) (s : State) (op : Op) (t : Nat) :
+    ((apply cfg s op).1.tables.lookup t).isSome = (s.tables.lookup t).isSome := by
+  by_cases h : ∀ t r ign, op ≠ .row t r ign
+  · rw [apply_tables_frame cfg s op h]
+  · have : ∃ t' r ign, op = .row t' r ign := by
+      cases op <;> simp at h ⊢
+    obtain ⟨t', r, ign, rfl⟩ := this
+    simp only [apply, addTableRow]
+    cases hl : s.tables.lookup t' with
+    | none => rfl
+    | some tab =>
+      simp only []
+      split
+      · rfl
+      · simp only [lookup_setKey]
+        by_cases ht : t = t'
+        · subst ht; simp [hl]
+        · simp [ht]
+
+theorem run_tables_known (cfg : Cfg) (s : State) (ops : List Op) (t : Nat) :
+    ((run cfg s ops).tables.lookup t).isSome = (s.tables.lookup t).isSome := by
+  induction ops generalizing s with
+  | nil => rfl
+  | cons op ops ih =>
+    have := ih (apply cfg s op).1
+    simp only [run, List.foldl_cons] at this ⊢
+    rw [this, apply_tables_known]
+
+theorem tableFrame_unknown_iff (s : State) (t : Nat) : tableFrame s t = .error .unknown ↔ s.tables.lookup t = none := by
+  unfold tableFrame
+  cases hl : s.tables.lookup t with
+  | none => simp
+  | some tab =>
+    simp only []
+    cases rect (tab.map (·.2)) <;> simp
+
 /-! ### rejected table rows (C18) -/
 
 theorem addTableRow_reject_unchanged (s : State) (t : Nat) (r : List (Nat × Val)) (ign : Bool) (e : Err)
@@ -621,21 +919,29 @@ theorem typeLoopS_lookup_notin (cfg : Cfg) (sn : Snap) (l : List (Nat × List AR
     | none => rfl
     | some ags =>
       simp only []
-      rw [ih _ h.2, lookup_setKey_ne h.1]
+      cases rowsExc reps' sn ags with
+      | some e => rfl
+      | none =>
+        simp only []
+        rw [ih _ h.2, lookup_setKey_ne h.1]
+
+/-- the key is usable (`_record_agenttype` finds agents for it) and none of its reporters raises on them -/
+def KeyOk (cfg : Cfg) (sn : Snap) (x : Nat × List ARep) : Prop :=
+  ∃ ags, classAgents cfg sn x.1 = some ags ∧ rowsExc x.2 sn ags = none
 
 theorem typeLoopS_ok (cfg : Cfg) (sn : Snap) (l : List (Nat × List ARep)) (acc : List (Nat × List Row))
-    (hk : ∀ x ∈ l, classAgents cfg sn x.1 ≠ none) : (typeLoopS cfg sn l acc).2 = none := by
+    (hk : ∀ x ∈ l, KeyOk cfg sn x) : (typeLoopS cfg sn l acc).2 = none := by
   induction l generalizing acc with
   | nil => rfl
   | cons x xs ih =>
     obtain ⟨T', reps'⟩ := x
+    obtain ⟨ags, hc, hr⟩ := hk (T', reps') List.mem_cons_self
     rw [typeLoopS]
-    cases hc : classAgents cfg sn T' with
-    | none => exact absurd hc (hk (T', reps') List.mem_cons_self)
-    | some ags => exact ih _ (fun y hy => hk y (by simp [hy]))
+    simp only [hc, hr]
+    exact ih _ (fun y hy => hk y (by simp [hy]))
 
 theorem typeLoopS_lookup (cfg : Cfg) (sn : Snap) (l : List (Nat × List ARep)) (acc : List (Nat × List Row))
-    (hk : ∀ x ∈ l, classAgents cfg sn x.1 ≠ none) (hnd : (l.map (·.1)).Nodup) (T : Nat) (reps : List ARep)
+    (hk : ∀ x ∈ l, KeyOk cfg sn x) (hnd : (l.map (·.1)).Nodup) (T : Nat) (reps : List ARep)
     (h : l.lookup T = some reps) :
     (typeLoopS cfg sn l acc).1.lookup T = (classAgents cfg sn T).map (·.map (mkRow reps sn)) := by
   induction l generalizing acc with
@@ -644,28 +950,31 @@ theorem typeLoopS_lookup (cfg : Cfg) (sn : Snap) (l : List (Nat × List ARep)) (
     obtain ⟨T', reps'⟩ := x
     rw [lookup_cons'] at h
     simp only [List.map_cons, List.nodup_cons] at hnd
+    obtain ⟨ags, hc, hr⟩ := hk (T', reps') List.mem_cons_self
     rw [typeLoopS]
-    cases hc : classAgents cfg sn T' with
-    | none => exact absurd hc (hk (T', reps') List.mem_cons_self)
-    | some ags =>
-      simp only []
-      by_cases hT : T = T'
-      · subst hT
-        simp only [if_true, Option.some.injEq] at h
-        subst h
-        rw [typeLoopS_lookup_notin _ _ _ _ _ hnd.1, lookup_setKey_self, hc]; rfl
-      · simp only [hT, if_false] at h
-        exact ih _ (fun y hy => hk y (by simp [hy])) hnd.2 h
+    simp only at hc hr
+    simp only [hc, hr]
+    by_cases hT : T = T'
+    · subst hT
+      simp only [if_true, Option.some.injEq] at h
+      subst h
+      rw [typeLoopS_lookup_notin _ _ _ _ _ hnd.1, lookup_setKey_self, hc]; rfl
+    · simp only [hT, if_false] at h
+      exact ih _ (fun y hy => hk y (by simp [hy])) hnd.2 h
 
-/-- for the keys C12 quantifies over, `_record_agenttype` looks at exactly the agents of that class -/
+/-- for the keys C12 quantifies over, `_record_agenttype` looks at exactly the agents of that class: in creation
+    order when the class has direct instances (`agents_by_type[T]`), in the current order of `model.agents` when it
+    has none (a base class: `isinstance` filter over `model.agents`) -/
 theorem classAgents_members (cfg : Cfg) (sn : Snap) (T : Nat) (hA : cfg.isAgentClass T = true)
     (hrefl : ∀ c, cfg.isSub c c = true)
     (hq : (∀ a ∈ sn.agents, cfg.isSub a.ty T = true → a.ty = T) ∨ (∀ a ∈ sn.agents, a.ty ≠ T)) :
-    classAgents cfg sn T = some (sn.agents.filter fun a => cfg.isSub a.ty T) := by
+    classAgents cfg sn T = some (if sn.agents.any (fun a => a.ty == T)
+      then byCreation (sn.agents.filter fun a => cfg.isSub a.ty T) else sn.agents.filter fun a => cfg.isSub a.ty T) := by
   unfold classAgents
   by_cases ha : sn.agents.any (fun a => a.ty == T) = true
   · rcases hq with hq | hq
     · simp only [ha, if_true, Option.some.injEq]
+      congr 1
       apply List.filter_congr
       intro a hm
       by_cases hs : cfg.isSub a.ty T = true
@@ -675,6 +984,267 @@ theorem classAgents_members (cfg : Cfg) (sn : Snap) (T : Nat) (hA : cfg.isAgentC
     · obtain ⟨a, hm, ht⟩ := List.any_eq_true.mp ha
       exact absurd (by simpa using ht) (hq a hm)
   · simp [ha, hA]
+
+/-! ### the order of `model.agents`: creation order until it is reordered in place -/
+
+/-- ids strictly ascending = creation order -/
+def IdSorted (l : List AgentS) : Prop := l.Pairwise fun a b => a.id < b.id
+
+theorem byCreation_of_idSorted {l : List AgentS} (h : IdSorted l) : byCreation l = l := by
+  unfold byCreation
+  apply sortStable_of_pairwise
+  exact h.imp (fun hab => by simp; omega)
+
+theorem byCreation_sorted (l : List AgentS) : (byCreation l).Pairwise fun a b => a.id ≤ b.id := by
+  unfold byCreation
+  have := sortStable_pairwise (le := fun (x y : AgentS) => decide (x.id ≤ y.id))
+    (fun a b c hab hbc => by simp at *; omega) (fun a b => by simp; omega) l
+  exact this.imp (fun h => by simpa using h)
+
+def noReorder : Op → Bool
+  | .reorder _ => false
+  | _ => true
+
+/-- every registered agent has an id below `nextId`, no two share one -/
+def IdsInv (s : State) : Prop := (s.agents.map (·.id)).Nodup ∧ ∀ a ∈ s.agents, a.id < s.nextId
+
+theorem updAgent_ids (id : Nat) (f : AgentS → AgentS) (hf : ∀ a, (f a).id = a.id) (l : List AgentS) :
+    (updAgent id f l).map (·.id) = l.map (·.id) := by
+  induction l with
+  | nil => rfl
+  | cons x xs ih =>
+    simp only [updAgent, List.map_cons] at *
+    rw [ih]
+    split <;> simp [hf]
+
+theorem apply_idsInv (cfg : Cfg) (s : State) (op : Op) (h : IdsInv s) : IdsInv (apply cfg s op).1 := by
+  obtain ⟨hnd, hlt⟩ := h
+  have hlt' : ∀ i ∈ s.agents.map (·.id), i < s.nextId := by
+    intro i hi; obtain ⟨a, ha, rfl⟩ := List.mem_map.mp hi; exact hlt a ha
+  have key : ∀ (l : List AgentS) (n : Nat), (l.map (·.id)).Nodup → (∀ i ∈ l.map (·.id), i < n) →
+      (l.map (·.id)).Nodup ∧ ∀ a ∈ l, a.id < n :=
+    fun l n h1 h2 => ⟨h1, fun a ha => h2 _ (List.mem_map.mpr ⟨a, ha, rfl⟩)⟩
+  unfold IdsInv
+  cases op <;> simp only [apply]
+  case create ty attrs =>
+    refine ⟨?_, ?_⟩
+    · simp only [List.map_append, List.map_cons, List.map_nil]
+      rw [List.nodup_append]
+      refine ⟨hnd, by simp, ?_⟩
+      intro a ha b hb
+      simp only [List.mem_singleton] at hb
+      subst hb
+      have := hlt' a ha
+      omega
+    · intro a ha
+      simp only [List.mem_append, List.mem_singleton] at ha
+      rcases ha with ha | ha
+      · have := hlt a ha; omega
+      · subst ha; simp
+  case remove id =>
+    refine ⟨?_, fun a ha => hlt a (List.mem_filter.mp ha).1⟩
+    exact (List.filter_sublist.map _).nodup hnd
+  case step => exact ⟨hnd, hlt⟩
+  case mset => exact ⟨hnd, hlt⟩
+  case mapp => split <;> exact ⟨hnd, hlt⟩
+  case mdel => split <;> exact ⟨hnd, hlt⟩
+  case aset id a v =>
+    have e := updAgent_ids id (fun ag : AgentS => { ag with attrs := setKey a v ag.attrs }) (fun _ => rfl) s.agents
+    apply key
+    · rw [e]; exact hnd
+    · rw [e]; exact hlt'
+  case adel id a =>
+    have e := updAgent_ids id (fun ag : AgentS => { ag with attrs := delKey a ag.attrs }) (fun _ => rfl) s.agents
+    apply key
+    · rw [e]; exact hnd
+    · rw [e]; exact hlt'
+  case collect =>
+    rw [(collect_frame cfg s).1, (collect_frame cfg s).2.2.2.2.2.2]; exact ⟨hnd, hlt⟩
+  case row =>
+    unfold addTableRow
+    split
+    · exact ⟨hnd, hlt⟩
+    · split <;> exact ⟨hnd, hlt⟩
+  case stopAt => exact ⟨hnd, hlt⟩
+  case reorder k =>
+    have hp := reorderList_perm k s.agents
+    exact ⟨(hp.map _).nodup_iff.mpr hnd, fun a ha => hlt a (hp.mem_iff.mp ha)⟩
+
+theorem run_idsInv (cfg : Cfg) (s : State) (ops : List Op) (h : IdsInv s) : IdsInv (run cfg s ops) := by
+  induction ops generalizing s with
+  | nil => exact h
+  | cons op ops ih => exact ih _ (apply_idsInv cfg s op h)
+
+/-- without an in-place reordering `model.agents` stays in creation order -/
+theorem apply_idSorted (cfg : Cfg) (s : State) (op : Op) (hop : noReorder op = true)
+    (h : IdSorted s.agents ∧ ∀ a ∈ s.agents, a.id < s.nextId) :
+    IdSorted (apply cfg s op).1.agents ∧ ∀ a ∈ (apply cfg s op).1.agents, a.id < (apply cfg s op).1.nextId := by
+  obtain ⟨hs, hlt⟩ := h
+  have upd : ∀ (id : Nat) (f : AgentS → AgentS), (∀ a, (f a).id = a.id) →
+      IdSorted (updAgent id f s.agents) ∧ ∀ a ∈ updAgent id f s.agents, a.id < s.nextId := by
+    intro id f hf
+    have hid : ∀ a : AgentS, (if a.id = id then f a else a).id = a.id := by
+      intro a; split <;> simp [hf]
+    refine ⟨?_, ?_⟩
+    · unfold IdSorted updAgent
+      rw [List.pairwise_map]
+      exact hs.imp (fun hab => by rw [hid, hid]; exact hab)
+    · intro a ha
+      obtain ⟨b, hb, rfl⟩ := List.mem_map.mp ha
+      rw [hid]; exact hlt b hb
+  cases op <;> simp only [apply]
+  case create ty attrs =>
+    refine ⟨?_, ?_⟩
+    · unfold IdSorted
+      rw [List.pairwise_append]
+      refine ⟨hs, by simp, ?_⟩
+      intro a ha b hb
+      simp only [List.mem_singleton] at hb
+      subst hb
+      exact hlt a ha
+    · intro a ha
+      simp only [List.mem_append, List.mem_singleton] at ha
+      rcases ha with ha | ha
+      · have := hlt a ha; omega
+      · subst ha; simp
+  case remove id => exact ⟨hs.filter _, fun a ha => hlt a (List.mem_filter.mp ha).1⟩
+  case step => exact ⟨hs, hlt⟩
+  case mset => exact ⟨hs, hlt⟩
+  case mapp => split <;> exact ⟨hs, hlt⟩
+  case mdel => split <;> exact ⟨hs, hlt⟩
+  case aset id a v => exact upd _ _ (fun _ => rfl)
+  case adel id a => exact upd _ _ (fun _ => rfl)
+  case collect =>
+    rw [(collect_frame cfg s).1, (collect_frame cfg s).2.2.2.2.2.2]; exact ⟨hs, hlt⟩
+  case row =>
+    unfold addTableRow
+    split
+    · exact ⟨hs, hlt⟩
+    · split <;> exact ⟨hs, hlt⟩
+  case stopAt => exact ⟨hs, hlt⟩
+  case reorder k => simp [noReorder] at hop
+
+theorem run_idSorted (cfg : Cfg) (s : State) (ops : List Op) (hops : ∀ op ∈ ops, noReorder op = true)
+    (h : IdSorted s.agents ∧ ∀ a ∈ s.agents, a.id < s.nextId) :
+    IdSorted (run cfg s ops).agents := by
+  induction ops generalizing s with
+  | nil => exact h.1
+  | cons op ops ih =>
+    exact ih _ (fun o ho => hops o (by simp [ho])) (apply_idSorted cfg s op (hops op (by simp)) h)
+
+/-! ### raising reporters: what one collect leaves, and the shapes `model_vars` can take -/
+
+theorem passes_iff (r : MRep) (sn : Snap) : r.passes sn = true ↔ r.exc sn = none := by
+  simp [MRep.passes]
+
+theorem firstExc_none_iff (l : List MRep) (sn : Snap) : firstExc l sn = none ↔ ∀ r ∈ l, r.passes sn = true := by
+  simp [firstExc, List.findSome?_eq_none_iff, passes_iff]
+
+theorem mOk_iff (cfg : Cfg) (sn : Snap) : mOk cfg sn = true ↔ ∀ r ∈ cfg.mreps, r.passes sn = true := by
+  simp [mOk, firstExc_none_iff]
+
+/-- the reporters that return before the first one that raises -/
+def passCount (l : List MRep) (sn : Snap) : Nat := (l.takeWhile (·.passes sn)).length
+
+/-- the loop over the model reporters on any columns of the right number: the columns of the reporters before
+    the first raising one get that reporter's value appended, the others are untouched -/
+theorem mLoop_spec (sn : Snap) (l : List MRep) (cols : List (List Val)) (hl : cols.length = l.length) :
+    (mLoop sn l cols).1 =
+      List.zipWith (fun col r => col ++ [r.eval sn]) (cols.take (passCount l sn)) (l.take (passCount l sn)) ++
+        cols.drop (passCount l sn) ∧
+    (mLoop sn l cols).2 = firstExc l sn := by
+  induction l generalizing cols with
+  | nil => cases cols <;> simp [mLoop, passCount, firstExc]
+  | cons r rs ih =>
+    cases cols with
+    | nil => simp at hl
+    | cons c cs =>
+      simp only [List.length_cons, Nat.add_right_cancel_iff] at hl
+      rw [firstExc_cons]
+      simp only [mLoop, passCount, List.takeWhile_cons]
+      cases hr : r.run sn with
+      | error e =>
+        have hp : r.passes sn = false := by simp [MRep.passes, MRep.exc, hr, excOf]
+        have he : r.exc sn = some e := by simp [MRep.exc, hr, excOf]
+        simp [hp, he]
+      | ok v =>
+        have hp : r.passes sn = true := by simp [MRep.passes, MRep.exc, hr, excOf]
+        have he : r.exc sn = none := by simp [MRep.exc, hr, excOf]
+        have hv : r.eval sn = v := by simp [MRep.eval, hr, valOf]
+        obtain ⟨i1, i2⟩ := ih cs hl
+        simp only [passCount] at i1
+        simp [hp, he, hv, i1, i2]
+
+/-- the column of the `k`-th reporter: its value at the collects at which reporters `0..k` all returned -/
+theorem colsOf_getElem (l : List MRep) (snaps : List Snap) (k : Nat) :
+    (colsOf l snaps)[k]? =
+      l[k]?.map fun r => (snaps.filter fun sn => (l.take (k + 1)).all (·.passes sn)).map r.eval := by
+  induction l generalizing snaps k with
+  | nil => simp [colsOf]
+  | cons r rs ih =>
+    cases k with
+    | zero => simp [colsOf]
+    | succ k =>
+      simp only [colsOf, List.getElem?_cons_succ, ih, List.filter_filter, List.take_succ_cons, List.all_cons]
+      congr 1
+      funext r'
+      congr 1
+      apply List.filter_congr
+      intro sn _
+      exact Bool.and_comm _ _
+
+/-- where every reporter returns at every collect, the columns are plain maps -/
+theorem colsOf_all_pass (l : List MRep) (snaps : List Snap) (h : ∀ sn ∈ snaps, ∀ r ∈ l, r.passes sn = true) :
+    colsOf l snaps = l.map fun r => snaps.map r.eval := by
+  induction l generalizing snaps with
+  | nil => rfl
+  | cons r rs ih =>
+    have hp : snaps.filter r.passes = snaps := by
+      rw [List.filter_eq_self]
+      intro sn hsn
+      exact h sn hsn r (by simp)
+    simp only [colsOf, hp, List.map_cons]
+    rw [ih snaps (fun sn hsn r' hr' => h sn hsn r' (by simp [hr']))]
+
+/-- a collect at which some reporter raised leaves a column shorter than the number of collects -/
+theorem colsOf_short (l : List MRep) (snaps : List Snap) (h : ∃ sn ∈ snaps, ∃ r ∈ l, r.passes sn = false) :
+    ∃ col ∈ colsOf l snaps, col.length < snaps.length := by
+  induction l generalizing snaps with
+  | nil => obtain ⟨_, _, _, hr, _⟩ := h; simp at hr
+  | cons r rs ih =>
+    obtain ⟨sn, hsn, r', hr', hp⟩ := h
+    by_cases hr0 : r.passes sn = true
+    · have hr'' : r' ∈ rs := by
+        rcases List.mem_cons.mp hr' with rfl | h
+        · rw [hr0] at hp; cases hp
+        · exact h
+      obtain ⟨col, hc, hlt⟩ := ih (snaps.filter r.passes) ⟨sn, List.mem_filter.mpr ⟨hsn, hr0⟩, r', hr'', hp⟩
+      refine ⟨col, by simp [colsOf, hc], Nat.lt_of_lt_of_le hlt (List.length_filter_le _ _)⟩
+    · refine ⟨(snaps.filter r.passes).map r.eval, by simp [colsOf], ?_⟩
+      rw [List.length_map]
+      exact List.length_filter_lt_length_iff_exists.mpr ⟨sn, hsn, hr0⟩
+
+theorem rect_ragged (c : List Val) (rest : List (List Val)) (h : ∃ col ∈ rest, col.length < c.length) :
+    rect (c :: rest) = none := by
+  obtain ⟨col, hc, hlt⟩ := h
+  have : rest.all (fun x => x.length == c.length) = false := by
+    rw [List.all_eq_false]
+    exact ⟨col, hc, by simp; omega⟩
+  simp [rect, this]
+
+theorem mLoop_snd_none (sn : Snap) (l : List MRep) (cols : List (List Val)) (h : ∀ r ∈ l, r.exc sn = none) :
+    (mLoop sn l cols).2 = none := by
+  induction l generalizing cols with
+  | nil => cases cols <;> rfl
+  | cons r rs ih =>
+    cases cols with
+    | nil => rfl
+    | cons c cs =>
+      have he := h r (by simp)
+      simp only [mLoop]
+      cases hr : r.run sn with
+      | error e => simp [MRep.exc, hr, excOf] at he
+      | ok v => exact ih cs (fun r' hr' => h r' (by simp [hr']))
 
 theorem storedSnaps_append (cfg : Cfg) (s : State) (ops₁ ops₂ : List Op) :
     storedSnaps cfg s (ops₁ ++ ops₂) = storedSnaps cfg s ops₁ ++ storedSnaps cfg (run cfg s ops₁) ops₂ := by
